@@ -54,6 +54,10 @@ TreeDiff(a, b) ==
     ELSE IF a[3] # b[3] THEN TreeDiff(a[3], b[3])
     ELSE TreeDiff(a[4], b[4])
 
+\* the stored string writes a unary minus directly in front of another minus or NOT ("--x", "-NOT x")
+MinusGlued(ts) == \E i \in 1..(Len(ts) - 1) : ts[i][1] = "NEG" /\ ts[i + 1][1] \in {"NEG", "NOT"}
+ReloadClass(tr, top) == IF MinusGlued(tr.st) THEN "minus-glued" ELSE Coarse(top)
+
 Verdict(tr) ==
     LET ds  == Denote(tr.src)
         dst == Denote(tr.st)
@@ -64,8 +68,8 @@ Verdict(tr) ==
         ELSE IF dst # ds THEN LET p == TreeDiff(ds, dst) IN V("regroup", <<Coarse(p[1]), Coarse(p[2])>>)
         ELSE IF ~Matched(tr.st) THEN V("outer-parens", <<Coarse(dst[1]), IF StartsEnds(tr.st) THEN "of-parens" ELSE "bare">>)
         ELSE IF tr.pr # tr.st THEN V("printed", SeqDiff(tr.st, tr.pr, 1))
-        ELSE IF ~tr.rlok THEN V("reload-rejected", <<Coarse(dst[1]), "">>)
-        ELSE IF tr.rl # tr.st THEN V("reload-differs", SeqDiff(tr.st, tr.rl, 1))
+        ELSE IF ~tr.rlok THEN V("reload-rejected", <<ReloadClass(tr, dst[1]), "">>)
+        ELSE IF tr.rl # tr.st THEN V("reload-differs", <<ReloadClass(tr, dst[1]), "">>)
         ELSE V("ok", <<"", "">>)
 
 TInit == /\ idx = 0
